@@ -357,7 +357,13 @@ func TestVerifC21Direct(t *testing.T) {
 			// itself a complete valid stream (formats without checksum) - what an independent full decode yields.
 			if accepted && !bytes.Equal(gotRaw, want) {
 				ref, rerr := vf21RefDecompress(msgAlg, compressed)
-				if rerr != nil || !bytes.Equal(gotRaw, vsrvMsg(typeCertificate, ref)) {
+				// gotRaw is the re-marshalled parse of what the client decompressed: compare like with like
+				refMsg := new(certificateMsgTLS13)
+				var refRaw []byte
+				if rerr == nil && refMsg.unmarshal(vsrvMsg(typeCertificate, ref)) {
+					refRaw, _ = refMsg.marshal()
+				}
+				if rerr != nil || len(ref) != int(declared) || !bytes.Equal(gotRaw, refRaw) {
 					st.KnownOrViolation(rt, "C21:corrupted-stream-yields-different-certificate", "%s: accepted a certificate message that is neither the original nor what a full decode of the damaged stream yields (full decode err=%v)", desc, rerr)
 					return
 				}
